@@ -215,12 +215,75 @@ func runHistory(r *ev.Run, v pdf.Version, hist []uint8) histResult {
 			return res
 		}
 	}
+	if f, n := harvestVariants(v, hist, e, ops); f != nil {
+		res.runs += n
+		res.fail = f
+		return res
+	} else {
+		res.runs += n
+	}
 	sum := sha256.Sum256([]byte(libKey + "#" + a.key()))
 	res.key = string(sum[:16])
 	if len(ops) > 0 && r != nil {
 		r.Distinct(append([]byte("B"+v.String()), data...))
 	}
 	return res
+}
+
+// harvestVariants re-runs an accepted history with Builder.Harvest inserted
+// before one or before two of its calls (every choice of positions).  The
+// harvested segments are only looked at after the last call, as a caller does
+// who collects the segments of a page and writes them at the end; their
+// concatenation with the rest must serialise to the bytes of the plain run.
+func harvestVariants(v pdf.Version, hist []uint8, e *env, plain []content.Operator) (*failure, int) {
+	n := len(hist)
+	runs := 0
+	if n < 2 {
+		return nil, 0
+	}
+	want, err := serialise(plain)
+	if err != nil {
+		return nil, 0 // (judged by checkSeq)
+	}
+	try := func(c1, c2 int) *failure {
+		runs++
+		b := builder.New(content.Page, nil, v)
+		var segs []*content.Operators
+		for i, h := range hist {
+			if i == c1 || i == c2 {
+				seg, err := b.Harvest()
+				if err != nil {
+					return &failure{"builder-harvest:error", fmt.Sprintf("Harvest before call %d of %s fails: %v", i, strings.Join(mkBuilderCase(v, hist).Names, ", "), err)}
+				}
+				segs = append(segs, seg)
+			}
+			calls[h].do(b, e)
+			if b.Err != nil {
+				return &failure{"builder-harvest:changes-acceptance", fmt.Sprintf("with Harvest before calls %d/%d, call %d of the accepted history %s fails: %v", c1, c2, i, strings.Join(mkBuilderCase(v, hist).Names, ", "), b.Err)}
+			}
+		}
+		var all []content.Operator
+		for _, seg := range segs {
+			all = append(all, seg.Ops...)
+		}
+		all = append(all, b.Stream...)
+		got, err := serialise(all)
+		if err != nil || string(got) != string(want) {
+			return &failure{"builder-harvest:segments-differ", fmt.Sprintf("Builder (PDF %s) history %s: with Harvest before call(s) %d/%d the segments, read after the last call, serialise to %q (%v); without Harvest the stream is %q", v, strings.Join(mkBuilderCase(v, hist).Names, ", "), c1, c2, clip(got), err, clip(want))}
+		}
+		return nil
+	}
+	for c1 := 1; c1 < n; c1++ {
+		if f := try(c1, -1); f != nil {
+			return f, runs
+		}
+		for c2 := c1 + 1; c2 < n; c2++ {
+			if f := try(c1, c2); f != nil {
+				return f, runs
+			}
+		}
+	}
+	return nil, runs
 }
 
 // naturalArgs are plausible operands for the conformance probe.
